@@ -52,6 +52,7 @@ class World:
         self.env: Callable[[World, "VSelector", float | None], None] | None = None  # untimed events, called at every select
         self.timed: list[tuple[float, int, Callable[[], None]]] = []  # (when, seq, action)
         self._seq = 0
+        self.env_pending: Callable[[], bool] = lambda: False  # the environment still has untimed events to apply
         self.runnable: Callable[[], bool] = lambda: False  # vloop: loop has ready callbacks
         self.next_timer: Callable[[], float | None] = lambda: None  # vloop: next scheduled timer
         self.busy_streak = 0
@@ -74,6 +75,15 @@ class World:
     def restore_clock() -> None:
         time.perf_counter = _REAL_PERF
         time.monotonic = _REAL_MONO
+
+    def advance(self, dt: float) -> None:
+        """Let virtual time pass outside of select() (a caller that polls with a zero timeout)."""
+        end = self.clock + dt
+        while self.timed and self.timed[0][0] <= end:
+            when, _seq, action = self.timed.pop(0)
+            self.clock = max(self.clock, when)
+            action()
+        self.clock = end
 
     def at(self, when: float, action: Callable[[], None]) -> None:
         self._seq += 1
@@ -184,6 +194,10 @@ class World:
                 timeout = None if deadline is None else deadline - self.clock
                 continue
             if deadline is None:
+                if self.env is not None and self.env_pending():
+                    # the events applied so far did not wake anything up: the environment goes on
+                    self.env(self, sel, timeout)
+                    continue
                 raise Deadlock("select(None): nothing ready, nothing pending")
             self.max_positive_wait = max(self.max_positive_wait, deadline - self.clock)
             self.clock = deadline
